@@ -318,4 +318,15 @@ func c02Errors(run *mon.Run) {
 	}
 	ok, err = crypto.VerifyBLSSignatureOneMessage([]crypto.PublicKey{pk}, sig, []byte("m"), nil)
 	check("one-nil-hasher", ok, err, crypto.IsNilHasherError)
+	// single-element lists
+	for _, s1 := range []crypto.Signature{sig, nil, make([]byte, 64)} {
+		ok, err = crypto.VerifyBLSSignatureOneMessage([]crypto.PublicKey{ec.PublicKey()}, s1, []byte("m"), h)
+		check("one-single-ecdsa-key", ok, err, crypto.IsNotBLSKeyError)
+	}
+	ok, err = crypto.VerifyBLSSignatureManyMessages([]crypto.PublicKey{ec.PublicKey()}, sig, m, []hash.Hasher{h})
+	check("many-single-ecdsa-key", ok, err, crypto.IsNotBLSKeyError)
+	ok, err = crypto.VerifyBLSSignatureManyMessages([]crypto.PublicKey{pk}, sig, m, []hash.Hasher{nil})
+	check("many-single-nil-hasher", ok, err, crypto.IsNilHasherError)
+	ok, err = crypto.VerifyBLSSignatureManyMessages([]crypto.PublicKey{pk}, sig, m, []hash.Hasher{constHasher("bad", 0, 129)})
+	check("many-single-bad-hasher", ok, err, crypto.IsInvalidHasherSizeError)
 }
